@@ -89,22 +89,24 @@ type jParty struct {
 }
 
 type jBScenario struct {
-	Kind      string   `json:"kind"`
-	Pkg       string   `json:"pkg"`
-	ID        int      `json:"id"`
-	N         int      `json:"n"`
-	T         int      `json:"t"`
-	Deviant   int      `json:"deviant"`
-	Deviation string   `json:"deviation"`
-	Victims   []int    `json:"victims"`
-	IDs       []int    `json:"ids"`      // participant identifiers in session order; party records, victims, events are by RANK (1..n)
-	Schedule  string   `json:"schedule"` // random (any pending message next, links are NOT FIFO) | a directed pattern "name X->Y"
-	Parties   []jParty `json:"parties"`
-	Stuck     bool     `json:"stuck"`
-	SignOK    bool     `json:"sign_ok"`   // every >= t subset of the honest Ok parties signs and verifies under the reported key
-	SignSets  int      `json:"sign_sets"` // number of subsets tried
-	Deliver   int      `json:"deliveries"`
-	Err       string   `json:"err,omitempty"`
+	Kind       string   `json:"kind"`
+	Pkg        string   `json:"pkg"`
+	ID         int      `json:"id"`
+	N          int      `json:"n"`
+	T          int      `json:"t"`
+	Deviant    int      `json:"deviant"`
+	Deviation  string   `json:"deviation"`
+	Victims    []int    `json:"victims"`
+	IDs        []int    `json:"ids"`         // participant identifiers in session order; party records, victims, events are by RANK (1..n)
+	ReuseGroup int      `json:"reuse_group"` // > 0: the SAME party objects go through the runs 1, 2, .. of this group (Init + KeyGen again)
+	ReuseRun   int      `json:"reuse_run"`
+	Schedule   string   `json:"schedule"` // random (any pending message next, links are NOT FIFO) | a directed pattern "name X->Y"
+	Parties    []jParty `json:"parties"`
+	Stuck      bool     `json:"stuck"`
+	SignOK     bool     `json:"sign_ok"`   // every >= t subset of the honest Ok parties signs and verifies under the reported key
+	SignSets   int      `json:"sign_sets"` // number of subsets tried
+	Deliver    int      `json:"deliveries"`
+	Err        string   `json:"err,omitempty"`
 }
 
 // ---------------------------------------------------------------- the world of one scenario
@@ -542,7 +544,10 @@ func (w *world) send(p *bparty, data []byte, bcast bool, to uint16) {
 type sched struct {
 	pattern string // "": random only
 	x, y    int
-	ids     []uint16 // participant identifiers in session order (nil: 1..n); everything else in the harness is by RANK
+	ids     []uint16  // participant identifiers in session order (nil: 1..n); everything else in the harness is by RANK
+	insts   []kgParty // instance reuse: the objects of an earlier run, by rank in THIS run (nil: fresh instances)
+	group   int       // instance reuse: group number and position of the run in its group (0: not a reuse scenario)
+	run     int
 }
 
 func (sc *sched) String() string {
@@ -721,8 +726,17 @@ func runBScenario(id int, pkg string, n, t int, dv *deviation, seed uint64, sch 
 	for _, x := range ids {
 		sc.IDs = append(sc.IDs, int(x))
 	}
+	if w.sched != nil {
+		sc.ReuseGroup, sc.ReuseRun = w.sched.group, w.sched.run
+	}
 	for i := 1; i <= n; i++ {
-		p := &bparty{id: i, inst: w.newInstance(i), honest: dv == nil || dv.party != i, shares: map[int][]*big.Int{},
+		inst := kgParty(nil)
+		if w.sched != nil && w.sched.insts != nil {
+			inst = w.sched.insts[i-1]
+		} else {
+			inst = w.newInstance(i)
+		}
+		p := &bparty{id: i, inst: inst, honest: dv == nil || dv.party != i, shares: map[int][]*big.Int{},
 			commits: map[int]bool{}, reveals: map[int]bool{}, revealAt: -1}
 		w.parties = append(w.parties, p)
 	}
@@ -1050,6 +1064,72 @@ func scheduleFamily(r *prng, id int, pkg string, n, t int, thorough bool, byz bo
 	return id
 }
 
+// reuseFamily: the same party objects taken through consecutive Init + KeyGen runs.  Every run is an ordinary scenario
+// (own dealt polynomials, own schedule, own mirror): a reused object has to behave like a fresh one.
+type stage struct {
+	t    int
+	ids  []uint16
+	kind string // "" honest, else a deviation of the party of rank n with victim rank 1
+}
+
+var reuseGroups int
+
+func runReuse(r *prng, id int, pkg string, n int, stages []stage) int {
+	reuseGroups++
+	objs := map[uint16]kgParty{}
+	w0 := &world{pkg: pkg}
+	for run, st := range stages {
+		ids := st.ids
+		if ids == nil {
+			ids = make([]uint16, n)
+			for i := range ids {
+				ids[i] = uint16(i + 1)
+			}
+		}
+		insts := make([]kgParty, n)
+		for i, x := range ids {
+			if objs[x] == nil {
+				w0.ids = ids
+				objs[x] = w0.newInstance(i + 1)
+			}
+			insts[i] = objs[x]
+		}
+		var dv *deviation
+		if st.kind != "" {
+			dv = &deviation{kind: st.kind, party: n, victims: map[int]bool{1: true}}
+		}
+		id++
+		emit(runBScenario(id, pkg, n, st.t, dv, r.next(), &sched{ids: ids, insts: insts, group: reuseGroups, run: run + 1}))
+	}
+	return id
+}
+
+func reuseFamily(r *prng, id int, pkg string, n, t int, thorough bool, only string) int {
+	t2 := n
+	if t == n {
+		t2 = 2
+	}
+	perm := make([]uint16, n) // the same parties in another session order (ranks change)
+	for i := range perm {
+		perm[i] = uint16((i+1)%n + 1)
+	}
+	gaps := idSets[n][0]
+	id = runReuse(r, id, pkg, n, []stage{{t: t}, {t: t}, {t: t2}})
+	id = runReuse(r, id, pkg, n, []stage{{t: t}, {t: t, ids: perm}})
+	if only == "honest" {
+		return id
+	}
+	id = runReuse(r, id, pkg, n, []stage{{t: t}, {t: t, kind: "offpoly"}, {t: t}})
+	id = runReuse(r, id, pkg, n, []stage{{t: t}, {t: t, kind: "wrongreveal"}})
+	id = runReuse(r, id, pkg, n, []stage{{t: t, kind: "offpoly"}, {t: t}, {t: t}})
+	id = runReuse(r, id, pkg, n, []stage{{t: t, ids: gaps}, {t: t, ids: gaps, kind: "offpoly"}})
+	if thorough {
+		id = runReuse(r, id, pkg, n, []stage{{t: t, kind: "wrongcommit"}, {t: t2}, {t: t, kind: "dupbad"}})
+		id = runReuse(r, id, pkg, n, []stage{{t: t2}, {t: t, ids: perm, kind: "offpoly"}, {t: t, ids: gaps}})
+	}
+	return id
+}
+
 // runSchedules: the schedule family alone, for one package (C08 uses it for mpc/ps)
 func runSchedules(r *prng, thorough bool, pkg string) {
 	nts := [][2]int{{3, 2}, {3, 3}, {4, 3}}
@@ -1115,6 +1195,12 @@ func runBackend(r *prng, thorough bool, only string) {
 	for _, pkg := range []string{"bls", "ps"} {
 		for _, nt := range fam {
 			id = scheduleFamily(r, id, pkg, nt[0], nt[1], thorough, only != "honest")
+		}
+	}
+	// instance reuse: the same objects through two and three consecutive Init + KeyGen runs
+	for _, pkg := range []string{"bls", "ps"} {
+		for _, nt := range fam {
+			id = reuseFamily(r, id, pkg, nt[0], nt[1], thorough, only)
 		}
 	}
 	if !thorough {
